@@ -281,6 +281,69 @@ pub fn sdt<const P: u8>(via_sink: bool) {
     kani::cover!(true, "REACHED");
 }
 
+/// SLIT (ACPI 6.5 5.2.17): header, locality count (8), n*n distances; one symbolic assignment.
+/// (C12 has the matrix semantics; this ties the table to C01/C02/C04.)
+pub fn slit<const P: u8>() {
+    let oem = oem_for(P, true);
+    let mut t = acpi_tables::slit::SLIT::new(oem.0, oem.1, oem.2, 2);
+    let v: u8 = kani::any();
+    t.set_distance(0, 1, v);
+    let r: Rec<52> = Rec::of(&t);
+    let mut e: Exp<52> = Exp::new();
+    ref_header(&mut e, b"SLIT", 48, 1, &oem);
+    e.u64(2).u8(10).u8(v).u8(v).u8(10);
+    fixed_verdicts::<P, 52>(&r, &e);
+    kani::cover!(true, "REACHED");
+}
+
+/// Generic Address Structure constructors (ACPI 6.5 5.2.3.2)
+pub fn gas_ctors<const P: u8>() {
+    use acpi_tables::gas::{AccessSize, GAS};
+    if P != 4 {
+        kani::cover!(true, "REACHED");
+        return;
+    }
+    let w: u8 = kani::any();
+    let dev: u8 = kani::any();
+    let func: u8 = kani::any();
+    let reg: u16 = kani::any();
+    let g = GAS::new_pci_config(w, AccessSize::DwordAccess, dev, func, reg);
+    let r: Rec<12> = Rec::of(&g);
+    // PCI configuration space address: device in bits 47:32, function in 31:16, register offset in 15:0
+    let mut e: Exp<12> = Exp::new();
+    e.u8(2).u8(w).u8(0).u8(3).u64(((dev as u64) << 32) | ((func as u64) << 16) | reg as u64);
+    // the fixed-layout GenericAddress helpers of sdt.rs
+    use acpi_tables::sdt::GenericAddress as GA;
+    use zerocopy::IntoBytes;
+    let a: u64 = kani::any();
+    let p: u16 = kani::any();
+    let m = GA::mmio_address::<u32>(a);
+    let io = GA::io_port_address::<u8>(p);
+    let q = GA::mmio_address::<u64>(a);
+    let mb = m.as_bytes();
+    let ib = io.as_bytes();
+    let qb = q.as_bytes();
+    let mut em: Exp<12> = Exp::new();
+    em.u8(0).u8(32).u8(0).u8(3).u64(a);
+    let mut ei: Exp<12> = Exp::new();
+    ei.u8(1).u8(8).u8(0).u8(1).u64(p as u64);
+    let mut eq: Exp<12> = Exp::new();
+    eq.u8(0).u8(64).u8(0).u8(4).u64(a);
+    let mut same = true;
+    let mut i = 0;
+    while i < 12 {
+        if mb[i] != em.b[i] || ib[i] != ei.b[i] || qb[i] != eq.b[i] {
+            same = false;
+        }
+        i += 1;
+    }
+    verdicts! {
+        "C04: GAS::new_pci_config places device/function/register at their specification positions": r.eq_bytes(&e.b, e.n),
+        "C04: GenericAddress mmio/io constructors: space id, bit width = 8*size, access size code, address": same,
+    }
+    kani::cover!(true, "REACHED");
+}
+
 // ------------------------------------------------------------------------------ FADT
 /// expected values of the FADT fields the builder API can set (everything else is zero)
 #[derive(Clone, Copy)]
